@@ -26,6 +26,8 @@ def run_check(prop, tier, repo, seed):
         mod = importlib.import_module('hxsa.rules.%s' % prop.lower())
         model = Model(repo)
         mod.run(model, res, tier)
+        if getattr(res, 'deferred_errors', None) and not res.findings:
+            raise res.deferred_errors[0]
     except AnalysisError as e:
         print('ANALYSIS-ERROR property=%s %s' % (prop, e))
         return 2
